@@ -351,6 +351,7 @@ class Folder(FileSystemItemABC):
                 file.scan()
                 if file.visible_health_status == FileSystemItemHealthStatus.CORRUPT:
                     self.visible_health_status = FileSystemItemHealthStatus.CORRUPT
+            self._scanned_this_step = True  # the visible status may just have changed: observations must refresh it
             return True
 
         if self.scan_countdown <= 0:
